@@ -652,7 +652,9 @@ func (s *Session) readCompressed(rw io.ReadWriter, p *Proposal) (err error) {
 
 		switch c {
 		case _CHRSTX:
-			c, _ := s.rd.ReadByte()
+			if c, err = s.rd.ReadByte(); err != nil {
+				return err
+			}
 			length := int(c)
 			if length == 0 {
 				length = 256
@@ -670,7 +672,9 @@ func (s *Session) readCompressed(rw io.ReadWriter, p *Proposal) (err error) {
 				}
 			}
 		case _CHREOT:
-			c, _ = s.rd.ReadByte()
+			if c, err = s.rd.ReadByte(); err != nil {
+				return err // No checksum byte: the link was lost between EOT and the checksum
+			}
 			ourChecksum = (ourChecksum + int(c)) % 256
 			if ourChecksum != 0 {
 				return errors.New(`Bad checksum`)
